@@ -46,16 +46,22 @@ func (o c11Op) String() string {
 type c11Cfg struct {
 	TwoTargets bool
 	NoAuto     [2]bool // DisableAutoStart per task
+	NoID       bool    // the create requests carry no task id: the server assigns one
 }
 
 var errC11Fault = errors.New("injected store failure")
+var errC11SlotTaken = errors.New("harness: slot taken")
 
 func c11Req(cfg c11Cfg, i int) *request.CreateRequest {
 	uri := "milvus-a:19530"
 	if cfg.TwoTargets && i == 1 {
 		uri = "milvus-b:19530"
 	}
-	r := &request.CreateRequest{TaskID: fmt.Sprintf("t%d", i), DisableAutoStart: cfg.NoAuto[i],
+	tid := fmt.Sprintf("t%d", i)
+	if cfg.NoID {
+		tid = ""
+	}
+	r := &request.CreateRequest{TaskID: tid, DisableAutoStart: cfg.NoAuto[i],
 		MilvusConnectParam: model.MilvusConnectParam{URI: uri, ConnectTimeout: 1, ChannelNum: 2},
 		CollectionInfos:    []model.CollectionInfo{{Name: fmt.Sprintf("c%d", i), Positions: map[string]string{fmt.Sprintf("src-dml_0_%dv0", 100+i): c19Pos(fmt.Sprintf("src-dml_0_%dv0", 100+i), "p")}}}}
 	return r
@@ -71,8 +77,12 @@ func c11Exec(cfg c11Cfg, hist []c11Op) *c11Result {
 	env := newVEnv()
 	defer env.close()
 	ref := map[string]string{} // task -> Running | Paused (absent = not existing)
+	ids := [2]string{"t0", "t1"} // slot -> task id
+	if cfg.NoID {
+		ids = [2]string{"unassigned-0", "unassigned-1"}
+	}
 	for step, op := range hist {
-		id := fmt.Sprintf("t%d", op.Task)
+		id := ids[op.Task]
 		if op.Fault > 0 {
 			n := 0
 			env.fe.Hook = func(o, k string) error {
@@ -95,7 +105,17 @@ func c11Exec(cfg c11Cfg, hist []c11Op) *c11Result {
 			}()
 			switch op.Kind {
 			case "create":
-				_, err = env.Create(c11Req(cfg, op.Task))
+				var cresp *request.CreateResponse
+				if _, live := ref[id]; cfg.NoID && live {
+					// (without a task id every create makes a new task: the slot keeps one task at a time)
+					err = errC11SlotTaken
+					break
+				}
+				cresp, err = env.Create(c11Req(cfg, op.Task))
+				if err == nil && cfg.NoID && cresp != nil {
+					ids[op.Task] = cresp.TaskID
+					id = cresp.TaskID
+				}
 			case "pause":
 				err = env.Pause(id)
 			case "resume":
@@ -128,6 +148,9 @@ func c11Exec(cfg c11Cfg, hist []c11Op) *c11Result {
 		if op.Fault == 0 {
 			switch op.Kind {
 			case "create":
+				if errors.Is(err, errC11SlotTaken) {
+					break
+				}
 				if exists {
 					// a create with the id of an existing task returns that task and changes nothing
 					if err != nil {
@@ -177,7 +200,7 @@ func c11Exec(cfg c11Cfg, hist []c11Op) *c11Result {
 				}
 			case "restart":
 				for i := 0; i < 2; i++ {
-					tid := fmt.Sprintf("t%d", i)
+					tid := ids[i]
 					if _, ok := ref[tid]; ok {
 						if cfg.NoAuto[i] {
 							ref[tid] = "Paused"
@@ -197,7 +220,7 @@ func c11Exec(cfg c11Cfg, hist []c11Op) *c11Result {
 			}
 			if op.Kind == "restart" {
 				for i := 0; i < 2; i++ {
-					tid := fmt.Sprintf("t%d", i)
+					tid := ids[i]
 					if _, ok := ref[tid]; ok && ref[tid] == "Initial" {
 						ref[tid] = "Initial"
 					}
@@ -215,6 +238,11 @@ func c11Exec(cfg c11Cfg, hist []c11Op) *c11Result {
 	}
 	sort.Strings(ks)
 	res.key = strings.Join(ks, ",") + "|" + env.storeDumpKeys()
+	if cfg.NoID {
+		for i, tid := range ids {
+			res.key = strings.ReplaceAll(res.key, tid, fmt.Sprintf("t%d", i)) // server-assigned ids differ from run to run
+		}
+	}
 	return res
 }
 
@@ -399,9 +427,9 @@ func c11Invariants(env *vEnv, cfg c11Cfg, ref map[string]string, step int, op c1
 	// deletion removes the record and all checkpoints; nothing of a task that does not exist may be stored
 	for k := range env.fe.Dump() {
 		owner := ""
-		for _, seg := range strings.Split(k, "/") {
-			if seg == "t0" || seg == "t1" {
-				owner = seg
+		for _, marker := range []string{"/task_position/", "/task_info/", "/task_msg/"} {
+			if i := strings.Index(k, marker); i >= 0 {
+				owner = strings.SplitN(k[i+len(marker):], "/", 2)[0]
 			}
 		}
 		if owner != "" {
@@ -474,7 +502,7 @@ func TestVerifC11Lifecycle(t *testing.T) {
 	res.Bounds["depth"] = depth
 	res.Bounds["fault_call_indexes"] = maxFault
 	res.Rule = "BFS over histories of {create, pause, resume, delete, get of task t0|t1; list; restart; create/pause/resume/delete of t0 and restart with the metadata store failing at its n-th call} for configurations {same target, two targets} x {auto-start on, off for t0}; each history replayed on a fresh real MetaCDC over the real etcd stores on fakeetcd; after every step: only legal transitions succeed (fault-free operations), API = persisted = in-memory = gauge state for every task, reference count / quit functions / registered replication entity / catalog subscriptions / source stream registrations match the running tasks, no store record of a task that does not exist, every task has its checkpoint record; states deduplicated on (task states, store keys); non-trivial = histories containing an injected store fault"
-	cfgs := []c11Cfg{{}, {TwoTargets: true}, {NoAuto: [2]bool{true, false}}}
+	cfgs := []c11Cfg{{}, {TwoTargets: true}, {NoAuto: [2]bool{true, false}}, {NoID: true}}
 	ops := c11Ops(maxFault)
 	deadline := time.Now().Add(ev.Budget(150 * time.Second))
 	nontriv := 0
